@@ -73,12 +73,144 @@ def register_spec():
                      'probabilistic and not claimed. `session in sessions` is an uninterpreted predicate over the table on entry.')
 
 
+def frag_is_uerr(eng, fdef):
+    """the decision of is_uerr (the predicate that tells an Unconnected Send error reply from an encapsulated reply): its `if ...length <= 6:` statement"""
+    import ast
+    ifs = [x for x in fdef.body if isinstance(x, ast.If) and "..length" in ast.unparse(x.test)]
+    if len(ifs) != 1 or fdef.body[-1] is not ifs[0]:
+        raise Unsupported('stale contract: is_uerr does not end with its single `if data[path + "..length"] <= 6:` decision')
+    return ifs
+
+
+def replay_is_uerr(model, obligation):
+    """replies of the simulator with every failure status, through the real client-side parser: each is delivered as the reply to its request"""
+    import cpppo
+    from cpppo.server.enip import parser
+    for payload, uerr in ((b'\xd2\x00\x05\x01\x00\x00', False), (b'\xd2\x00\xff\x01\x05\x21', False), (b'\xd2\x00\x08\x00', True), (b'\xd2\x00\x01\x00', True),
+                          (b'\xd2\x00\x04\x01\x00\x00', False), (b'\xd2\x00\x10\x00', False), (b'\xd2\x00\x00\x00\xc3\x00\x01\x00', False)):
+        data = cpppo.dotdict()
+        data['p.length'] = len(payload)
+        src = cpppo.peekable(payload)
+        with parser.unconnected_send(terminal=True, limit=len(payload)) as m:
+            for _ in m.run(source=src, data=data, path='p'):
+                pass
+        us = data.p.unconnected_send
+        is_err = 'request' not in us and us.get('service') == 0xd2 and 'status' in us
+        if is_err != uerr:
+            return dict(confirmed=True, function='cpppo.server.enip.parser.unconnected_send (is_uerr)', input=repr(payload),
+                        observed='parsed as %s: %r' % ('an Unconnected Send error' if is_err else 'an encapsulated reply', dict(us)),
+                        required='an Unconnected Send error' if uerr else 'the encapsulated reply of the request (delivered with its own status)')
+    return dict(confirmed=False)
+
+
+def is_uerr_spec():
+    import z3
+    from pyvc.spec import Spec
+    from pyvc.vals import IntV
+    from . import source_common as SC
+    push, nxt, peek = SC.peeking_specs()
+    def src(eng, name, st):
+        eng.init_vals['_g_length'] = IntV(z3.Int('_g_length'))
+        return eng.fresh_obj('peeking', SC.PEEK_FIELDS, name, st)
+    R = 'old(rest(source._iter))'
+    return Spec('unconnected_send.is_uerr', ('server/enip/parser.py', 'unconnected_send.__init__.is_uerr'), params={'source': src}, fragment=frag_is_uerr,
+                env={"data[path + '..length']": lambda eng, st: IntV(z3.Int('_g_length'))},
+                requires='len(source._back) == 0 and len(rest(source._iter)) >= 4 and _g_length >= 0',
+                defs=dict(R=R),
+                ensures=[('an error of the Unconnected Send itself: a short 0xD2 payload whose status is below 0x10 and has NO extended status word; anything else is the encapsulated reply',
+                          '(result is not None) == (_g_length <= 6 and R[2] < 16 and R[3] == 0)'),
+                         ('only ever True', 'result is None or result == True'),
+                         ('the peeked symbols are all pushed back: the pending stream is what it was', 'implies(_g_length <= 6, source._back == [R[3], R[2], R[1], R[0]] and rest(source._iter) == R[4:])'),
+                         ('nothing is consumed', 'source._sent == old(source._sent)')],
+                raises={}, modifies=['source._back', 'source._sent', 'source._iter'],
+                callees={'peeking.__next__': nxt, '__next__': nxt, 'next': nxt, 'push': push, 'peeking.push': push},
+                hints=dict(locals={}), replay=replay_is_uerr,
+                note='FRAGMENT (T9): the decision statement of the nested predicate is_uerr of unconnected_send.__init__ (log lines dropped); the source by the peeking contracts; '
+                     'the item length read from the data artifact is a free integer')
+
+
+def envelope_frame(repo):
+    """The reply's encapsulation header is the request's: logix.process answers in a structural copy of request.enip, and neither it nor
+    UCMM.request stores into the copied sender context, command or (outside Register Session) session handle.  Decided on the AST of both."""
+    import re
+    import z3
+    from . import frames
+    from pyvc.vals import Unsupported
+    out = []
+    import ast
+    targets = [('server/enip/logix.py', 'process', 'data.response.enip', {})]
+    # UCMM.request and every other UCMM method that is handed the same `data` (request dispatches to them: list_services, list_identity, ...)
+    utree = repo.module('server/enip/ucmm.py').tree
+    ucls = [n for n in utree.body if isinstance(n, ast.ClassDef) and n.name == 'UCMM']
+    if len(ucls) != 1:
+        raise Unsupported('stale contract: no class UCMM in server/enip/ucmm.py')
+    for fn in ucls[0].body:
+        if isinstance(fn, ast.FunctionDef) and 'data' in [a.arg for a in fn.args.args]:
+            targets.append(('server/enip/ucmm.py', 'UCMM.' + fn.name, 'data.enip', {'session_handle': 1} if fn.name == 'request' else {}))
+    if len(targets) < 5:
+        raise Unsupported('stale contract: UCMM has only %d methods taking `data`' % (len(targets) - 1))
+    for rel, qual, root, allowed in targets:
+        mod, cls, fdef = repo.find_function(rel, qual)
+        al = frames.aliases(fdef, root, ('sender_context', 'command', 'session_handle', 'options'))
+        if al:
+            raise Unsupported('stale contract: %s binds %s to a plain name (%s); stores through it are not tracked' % (qual, root, ', '.join(al)))
+        st = frames.stores(fdef)
+        for field in ('sender_context', 'command', 'session_handle', 'options'):
+            hits = [(ln, t) for ln, t in st if re.match(r'^%s\.%s(\.|\[|$)' % (re.escape(root), field), t) or t in (root + '.?',)]
+            w = z3.Int('stores_%s_%s' % (qual.replace('.', '_'), field))
+            out.append(('%s stores into %s.%s at most %d time(s)' % (qual, root, field, allowed.get(field, 0)), [w == len(hits)], w <= allowed.get(field, 0)))
+    # the one permitted store of the session handle is the Register Session branch (its value is the subject of the register contract above)
+    mod, cls, fdef = repo.find_function('server/enip/logix.py', 'process')
+    copies = [n for n in ast.walk(fdef) if isinstance(n, ast.Assign) and ast.unparse(n.targets[0]) == 'data.response.enip' and ast.unparse(n.value) == 'dotdict(data.request.enip)']
+    c = z3.Int('response_enip_is_a_copy_of_request_enip')
+    out.append(('process builds response.enip as a copy of request.enip', [c == len(copies)], c == 1))
+    return out
+
+
+def replay_envelope(model, obligation):
+    """reference-encoded requests with distinctive header fields through the real logix.process: the reply header carries them back"""
+    import struct
+    import cpppo
+    from cpppo.server.enip import logix, device, parser
+    from . import sim, wire
+    sim.quiet()
+    device.lookup_reset()
+    logix.setup_reset()
+    tags = {'A': cpppo.dotdict(attribute=device.Attribute('A', parser.INT, default=[5, 6, 7]), error=0)}
+    for k, (cip, ctx, sess) in enumerate(((wire.read_tag('A', 0, 1), b'CONTEXT1', 0x01020304), (wire.write_tag('A', 1, 0xc3, [9]), b'\x00\xff\x00\xff\x00\xff\x00\x01', 0x7fffffff),
+                                          (wire.read_tag('Nope', 0, 1), b'ctx-fail', 5))):
+        frame = wire.send_rr_data(cip, session=sess, context=ctx)
+        data = cpppo.dotdict()
+        data.request = cpppo.dotdict()
+        with parser.enip_machine(context='enip') as m:
+            for _ in m.run(source=cpppo.peekable(frame), data=data.request):
+                pass
+        try:
+            logix.process(('127.0.0.1', 1), data=data, tags=tags)
+        except Exception as e:
+            continue
+        rp = bytes(parser.enip_encode(data.response.enip)) if 'enip' in data.response else b''
+        if len(rp) < 24:
+            continue
+        cmd, ln, sh, st = struct.unpack('<HHII', rp[:12])
+        if cmd != 0x6f or sh != sess or rp[12:20] != ctx:
+            return dict(confirmed=True, function='cpppo.server.enip.logix.process / UCMM.request', input='SendRRData session 0x%x context %r' % (sess, ctx),
+                        observed='reply command 0x%x session 0x%x context %r' % (cmd, sh, rp[12:20]), required="the request's command, session handle and sender context")
+    return dict(confirmed=False)
+
+
 def contracts(repo):
-    items = [register_spec()]
+    from pyvc.spec import Custom as _Custom
+    items = [register_spec(), is_uerr_spec(), _Custom('envelope_frame', envelope_frame, replay=replay_envelope,
+                                      note='frame condition on the AST of UCMM.request and logix.process: the copied encapsulation header fields are not stored into (session handle: once, in Register Session)')]
     for sp in LC.request_specs():
         sp.ensures = [(l, t) for l, t in sp.ensures if l in C06_LABELS]
         items.append(sp)
     items.append(C07.router_request_spec())
+    # the reply frame around the service reply: encapsulation header (command, length, session, status, sender context, options), SendRRData
+    # payload and the CPF list with its null address item and one data item - the producer contracts of C01
+    from . import C01 as _C01
+    items += [_C01.enip_encode_spec()] + [s for s in _C01.encapsulation_specs() if s.name.startswith(('send_data', 'register'))] + _C01.cpf_specs()
     from . import C15
     items += C15.contracts(repo)          # an unroutable request is refused before any dispatch, with a non-zero status
     from . import C05
@@ -135,7 +267,7 @@ def raw_session(frames, tags):
                         break
                     replies.append(buf[:24 + ln])
                     buf = buf[24 + ln:]
-        except socket.timeout:
+        except OSError:          # a timeout, or the peer reset the connection: what was received so far is the observation
             pass
         s.close()
     return replies, buf
@@ -226,7 +358,7 @@ def bounded(tier, seed):
                             ln = struct.unpack('<H', buf[2:4])[0]
                             got.append(buf[:24 + ln])
                             buf = buf[24 + ln:]
-                except socket.timeout:
+                except OSError:          # a timeout, or the peer reset the connection: what was received so far is the observation
                     pass
                 s.close()
             ev += 1
@@ -264,7 +396,7 @@ def bounded(tier, seed):
                     if not c:
                         break
                     buf += c
-            except socket.timeout:
+            except OSError:          # a timeout, or the peer reset the connection: what was received so far is the observation
                 pass
             s.close()
         frames, rest = wire.split_frames(buf)
@@ -287,6 +419,8 @@ def bounded(tier, seed):
             tail = s.recv(100)
         except socket.timeout:
             tail = b'timeout'
+        except OSError:
+            tail = b''            # the connection was reset: the session has ended, nothing was returned
         s.close()
     ev += 1
     distinct.add(('cmd', 'Unregister'))
